@@ -8,5 +8,6 @@ let () =
   | _ :: "c15" :: file :: _ -> C15.run file
   | _ :: "c16" :: file :: _ -> C16.run file
   | _ :: "c19" :: file :: _ -> C19.run file
+  | _ :: "c17" :: file :: _ -> C17.run file
   | _ :: ("c06" | "c10" | "c13" | "c18" as m) :: file :: _ -> Pg.run m file
   | _ -> prerr_endline "usage: oracle <property> <trace>"; exit 2
